@@ -19,6 +19,7 @@ import (
 func main() {
 	dir := flag.String("dir", "", "scratch copy of the repository (files are rewritten in place)")
 	suffix := flag.String("suffix", "Z", "suffix appended to local names")
+	fields := flag.Bool("fields", false, "also rename unexported struct fields")
 	only := flag.String("only", "", "comma-separated file base names to restrict the rename to (default: all non-test files)")
 	flag.Parse()
 	cfg := &packages.Config{Mode: packages.NeedName | packages.NeedFiles | packages.NeedCompiledGoFiles | packages.NeedSyntax | packages.NeedTypes | packages.NeedTypesInfo | packages.NeedDeps | packages.NeedImports,
@@ -42,6 +43,11 @@ func main() {
 		info := pk.TypesInfo
 		rename := func(id *ast.Ident, o types.Object) {
 			v, ok := o.(*types.Var)
+			if ok && v.IsField() && *fields && !v.Exported() && !v.Embedded() && v.Pkg() != nil && strings.HasPrefix(v.Pkg().Path(), "github.com/CloudyKit/jet") && id.Name != "_" {
+				id.Name = v.Name() + *suffix
+				n++
+				return
+			}
 			if !ok || v.IsField() || v.Pkg() == nil || v.Parent() == nil || v.Parent() == v.Pkg().Scope() || id.Name == "_" {
 				return
 			}
